@@ -5,6 +5,7 @@ verify_contract(C)  runs the symbolic executor over every path of the function
 parameters), and returns the list of obligations with verdicts.
 """
 import os
+import sys
 import time
 import traceback
 import z3
@@ -468,7 +469,7 @@ class Run:
         ABSTRACT_REAL[0] = (not shape_mode) and getattr(C, "abstract_real", False)
         if getattr(C, "sum_axioms", False) and not shape_mode:
             from .lib import SUM_AXIOMS, SUM_EXT
-            self.lib_axioms_extra = list(SUM_AXIOMS) + [SUM_EXT]
+            self.lib_axioms_extra = (list(SUM_AXIOMS[:1]) if C.sum_axioms == "ext" else list(SUM_AXIOMS)) + [SUM_EXT]
         else:
             self.lib_axioms_extra = []
         from .sym import comm_axioms
@@ -658,3 +659,7 @@ def explore(run, on_path=None, max_paths=4000):
         except PathEnd:
             continue
     return results
+
+
+from . import lib_mat as _lib_mat      # 2-D arrays / object lists: models + havoc / clone support
+_lib_mat.install(sys.modules[__name__])
